@@ -74,7 +74,7 @@ REACH = ["treecollectionmodel:TreeArray.update", "treecollectionmodel:TreeArray.
          "treecollectionmodel:TreeArray.get_split_bitmask_and_edge_tuple", "treecollectionmodel:TreeArray.consensus_tree",
          "treecollectionmodel:TreeArray.calculate_log_product_of_split_supports", "treecollectionmodel:TreeArray.maximum_product_of_split_support_tree",
          "treecollectionmodel:SplitDistribution.calc_freqs"]
-MIN_EVENTS = {"merge-compared-with-serial": (1300, 10000), "source-unchanged-checked": (5000, 38000), "alignment-invariant-checked": (14000, 180000),
+MIN_EVENTS = {"target-tree-summarised-directly": (1500, 8000), "merge-compared-with-serial": (1300, 10000), "source-unchanged-checked": (5000, 38000), "alignment-invariant-checked": (14000, 180000),
               "add_tree-row-checked": (8500, 140000), "empty-after-nonempty-merge": (1100, 7500), "per-tree-row-compared": (8000, 190000),
               "restored-topology-compared-with-source-spec": (8000, 190000), "history-compared:warm": (1100, 8500),
               "history-compared:tree-added-after-merge": (650, 5000), "history-compared:mixed-operators": (400, 3200), "history-compared:nested": (300, 2500),
